@@ -613,13 +613,16 @@ func (c *registration) setDelegate(m metric.Meter) {
 
 func (c *registration) Unregister() error {
 	c.unregMu.Lock()
-	defer c.unregMu.Unlock()
-	if c.unreg == nil {
+	unreg := c.unreg
+	c.unreg = nil
+	c.unregMu.Unlock()
+	if unreg == nil {
 		// Unregister already called.
 		return nil
 	}
 
-	var err error
-	err, c.unreg = c.unreg(), nil
-	return err
+	// Do not hold unregMu while calling unreg: before a delegate is set
+	// unreg acquires the meter lock, which meter.setDelegate holds while it
+	// acquires unregMu (lock-order inversion, deadlock).
+	return unreg()
 }
